@@ -18,14 +18,19 @@ def plans(cases, run):
 
 
 def replay_plan(rp, run):
-    return [("replay", {"cfgs": [rp["context"]["cfg"]], "pool": rp["context"]["reqs"], "random": 0}, None, False)]
+    return [("replay", {"cfgs": [rp["context"]["cfg"]], "pool": rp["context"]["reqs"], "random": 0,
+                        "stacked": bool(rp["context"].get("stacked"))}, None, False)]
 
 
 def context(ev, events):
     # the configuration and every request of that logical trace up to the failing one
     idx = next(i for i, e in enumerate(events) if e is ev or e == ev)
     start = max(i for i in range(idx + 1) if events[i]["e"] == "cfg")
-    return {"cfg": events[start]["cfg"], "reqs": [e["req"] for e in events[start + 1:idx + 1]]}
+    seq = events[start + 1:idx + 1]
+    if ev["e"] == "cstack":
+        return {"cfg": events[start]["cfg"], "stacked": True,
+                "reqs": [{"m": "GET", "origin": e["origin"], "acrm": "", "acrh": "", "url": "/u1"} for e in seq if e["e"] == "cstack"]}
+    return {"cfg": events[start]["cfg"], "reqs": [e["req"] for e in seq if "req" in e]}
 
 
 RULES = {
